@@ -23,6 +23,19 @@ CLAIMS = {
         note="Not decided by proof: the behaviour of floor() under IEEE rounding (covered only by the concrete companion runs, bounded). "
              "Batch sizes above 3 rows follow from row-independence of the vectorised code, which is not itself proved.",
         design="§3 C01"),
+    "C02": dict(
+        level="proof",
+        technique="contract-based deductive verification: real subregion/time_slice/time_interval/append/stack bodies executed on z3 symbols; ShapeOnly arrays (all shapes, symbolic ROIs) for placement, token arrays for data blocks; composition lemma in z3",
+        text="Offset-embedding contract (child voxel v <-> parent voxel v+start: equal coordinate, voxel size, payload axes, time metadata) "
+             "proved for Image.subregion with tuple-of-slices (closed/open ends), VoxelArray and CoordinateArray ROIs (clipped, 2-3 generic "
+             "corner points) for ALL shapes, ROIs, dimensions and origins in 1-3-D; data-block identity by token arrays for every ROI of the "
+             "enumerated shapes; time_slice / time_interval bookkeeping (dates, symbolic relative times, flags) for every index/interval of "
+             "series of 1 and 3 steps; two-level nesting and commutation with time extraction proved directly, arbitrary depth by the "
+             "composition lemma over the contracts; append/stack followed by time_slice returns the originals (data tokens, dates, times+offset).",
+        note="Data-block identity and time bookkeeping are proved per enumerated shape / series length (P/shape), not for all shapes. "
+             "Dates are concrete datetime objects (not symbolic). stack() without dates cannot carry relative times (no offset argument): "
+             "the contract of stack covers dated or time-less images, append(offset) covers relative times.",
+        design="§3 C02"),
 }
 
 
